@@ -94,6 +94,7 @@ type l2World struct {
 	replicas           []*l2Replica
 	recent             [][]byte   // recently broadcast transactions (client traffic re-uses them)
 	planExecs          string     // the executor list installed by the last executor-change plan (printed form)
+	caseTwin  string     // an L2-native denom that equals a bridged denom up to letter case ("" if none)
 	hookOuter *l1Deposit // the deposit a payload is being built for (class nested)
 	lenient            bool       // see l1World
 	sidePct            int        // % of schedule points with client traffic on discarded branches
@@ -263,11 +264,29 @@ func newL2WorldOpt(r *core.Run, p *l2Profile, fixedBridge uint64, bases []string
 	w.opts.MinGasPrices = p.NodeMinGas
 	w.genesis = &node.L2Genesis{Time: w.now, Balances: bal, Opchild: gen, CurrencyPairs: pairs}
 	if r.Chance(1, 5) {
-		// the operator pre-funded the opchild module account in the bank genesis
+		// the operator pre-funded the opchild module account in the bank genesis (native coins, sometimes bridged ones too)
 		amt := uint64(1000 + r.Intn(100_000))
 		w.genesis.ModuleFunds = sdk.NewCoins(sdk.NewCoin("umin", math.NewIntFromUint64(amt)))
 		w.m.Bal.add(authtypes.NewModuleAddress(opchildtypes.ModuleName), "umin", new(big.Int).SetUint64(amt))
 		w.m.supplyAdd("umin", new(big.Int).SetUint64(amt))
+		if fixedBridge == 0 && r.Chance(1, 2) {
+			// (not in two-chain worlds: there every bridged coin on L2 is backed by the L1 escrow by premise)
+			d := w.l2denom(w.bases[0])
+			w.genesis.ModuleFunds = w.genesis.ModuleFunds.Add(sdk.NewCoin(d, math.NewIntFromUint64(amt)))
+			w.m.Bal.add(authtypes.NewModuleAddress(opchildtypes.ModuleName), d, new(big.Int).SetUint64(amt))
+			w.m.supplyAdd(d, new(big.Int).SetUint64(amt))
+			bump(w.m.Credited, d, new(big.Int).SetUint64(amt)) // supply that exists from genesis counts like credited deposits in C09's equation
+		}
+	}
+	if r.Chance(1, 5) {
+		// an L2-native token whose denom is a bridged denom written in upper case (another denom for the bank)
+		w.caseTwin = strings.ToUpper(w.l2denom(w.bases[0]))
+		for _, a := range w.users {
+			c := sdk.NewCoin(w.caseTwin, math.NewInt(5000))
+			bal[a.String()] = bal[a.String()].Add(c)
+			w.m.Bal.add(a, w.caseTwin, big.NewInt(5000))
+			w.m.supplyAdd(w.caseTwin, big.NewInt(5000))
+		}
 	}
 	if r.Chance(1, 4) {
 		// the bank genesis already carries metadata for (some of) the bridged denoms, without any opchild denom pair
@@ -531,6 +550,9 @@ func (w *l2World) genOp(spec *modelL2, bc blockCtx) ([]sdk.Msg, string, string) 
 			denom = "umin"
 		default:
 			denom = "l2/unknown"
+			if w.caseTwin != "" {
+				denom = w.caseTwin
+			}
 		}
 		bal := spec.Bal.get(sa, denom)
 		var amt math.Int
